@@ -23,7 +23,8 @@ func (k msgServer) Cancel(goCtx context.Context, msg *types.MsgCancel) (*types.M
 	isCreator := false
 	if order.Creator == msg.Creator {
 		isCreator = true
-	} else {
+	} else if msg.Provider == order.Provider {
+		// another transaction address of the gateway the order was created through
 		node, found := k.node.GetNode(ctx, msg.Provider)
 		if found {
 			for _, address := range node.TxAddresses {
